@@ -145,6 +145,31 @@ def check_event_uniqueness(P, r6):
             r6.bad(V(r6.id, f.id, "no-uniqueness-by-identifier", "no uniqueness step keyed on the generated function name: `ev-one` and `ev_one` both become onEvOne"))
 
 
+def check_annotated_bindings(P, r7):
+    """shared by C12-D7 and C05-D6"""
+    # `let x: T = init` records T: where the pattern carries an annotation, what is recorded comes from the annotation alone — the initialiser
+    # (`Vec::new()`, `Default::default()`) only names a constructor, it would turn `let batch: Vec<Tag> = Vec::new()` into the type `Vec`
+    for g in P.find("EventParser::extract_local_binding") + [P.fns[k_] for k_ in P.fns if k_.endswith("symbol_table::record_local_binding")]:
+        fam_calls = {short_path(c2.best).split("::")[-1] for k2 in P.family(g.id) if "::{closure" in k2 for c2 in P.fns[k2].calls}
+        n_ann = 0
+        for c in g.calls:
+            if short_path(c.path) != "HashMap::insert" or c.bb not in g.reach_blocks or len(c.args) < 3:
+                continue
+            conds = g.must_conditions(c.bb)
+            if any(re.search(r"Local\.pat\.deref=Ident$", x) for x in conds):
+                continue        # the unannotated form `let x = init`
+            n_ann += 1
+            fed = {x.split("::")[-1] for x in g.feeding_calls(c.args[2], depth=7)}
+            through_closure = fed & {"map", "filter", "or_else", "or", "and_then", "unwrap_or_else", "map_or", "map_or_else", "unwrap_or"}
+            if "infer_type_from_init" in fed or (through_closure and "infer_type_from_init" in fam_calls):
+                r7.bad(V(r7.id, g.id, "annotated-binding-typed-from-initialiser", "a binding whose pattern may carry a type annotation is recorded with a type that can come from the "
+                         "initialiser (%s): `let batch: Vec<Tag> = Vec::new()` is typed `Vec`" % sorted(fed)[:6], c.file, c.line))
+            else:
+                r7.ok("%s: annotated bindings are recorded from the annotation" % short_path(g.id))
+        if not n_ann:
+            r7.bad(V(r7.id, g.id, "annotated-binding-not-recorded", "no recording site handles `let x: T = ..`"))
+
+
 def check_symbol_table_keys(P, rule):
     """writer/reader agreement of the event parser's variable→type table: the spelling under which a parameter or binding is recorded is the spelling
     under which the payload variable is looked up (both the identifier's text, or both its unraw()'d text).  Recorded one way and looked up the other,
@@ -626,6 +651,7 @@ def check(ctx):
             else:
                 r7.bad(V(r7.id, part_, "listener-type-source:%s" % h_, "the listener is typed with `%s`, not with the qualified TypeScript rendering of the payload type" % h_))
     check_symbol_table_keys(P, r7)
+    check_annotated_bindings(P, r7)
     r7.require_floor(8, "payload typing facts")
     rules.append(r7)
 
